@@ -41,14 +41,20 @@ and `Ref.eval`/`Ref.runProgram` themselves:
                                   reference frames / static chain; values and errors;
 * `compile_correct_on_Fv`       — `CompileCorrect` restricted to Fv (values, errors, traces).
 
+* `segment_lemma_Fc`            — Stage D: the same for Fc = Fv (binder names not builtin names) +
+                                  calls of first-order builtins; operands are compiled at run time
+                                  and evaluated in nested `Run`s;
+* `compile_correct_on_Fc`       — `CompileCorrect` restricted to Fc.
+
 `compile_correct_partial` (below) says what is proved of the semantic statement and names
-the unproved remainder (`CompileCorrectOutsideFv`).
+the unproved remainder (`CompileCorrectOutsideProved`).
 -/
 import ZygoVerif.Model.Gen
 import ZygoVerif.Model.VM
 import ZygoVerif.Spec.RefEval
 import ZygoVerif.Proofs.SimF0cTop
 import ZygoVerif.Proofs.SimFvTop
+import ZygoVerif.Proofs.SimFcTop
 namespace ZygoVerif.C02
 open ZygoVerif.Core ZygoVerif.VM
 
@@ -586,42 +592,159 @@ example : ∃ fuel' tr, obsOfRef (Ref.runProgram 6 demoFvErr Ref.initSt).1 = som
   | brk l rs' => rw [hres] at h; simp [refClass] at h
   | cont l rs' => rw [hres] at h; simp [refClass] at h
 
+/-! ## Stage D, second half — calls of first-order builtins (fragment Fc)
+
+`Fc` = Fv whose binder names (`def`/`set`/`let`/`letseq`) are not names of first-order builtins,
+plus calls `(h a₁ … aₙ)` where `h` is one of
+`+ - * mod < > <= >= == != not cons first rest second list array len append concat aget aset hash
+hget hset trace` and the operands are in Fc. A call is ONE VM instruction (`callExpr`); executing it
+compiles every operand at run time into a fresh function object and runs it in a nested `Run`
+(`EvalCallExpression`/`nested`), then runs the builtin under `CallUserFunction`. The relation
+(`Sim.RelC`) therefore lets the function table grow and the current function be such a helper:
+every closing list on the parent chain of the current function is a suffix of the linear scope
+stack; first-order builtin names are bound in the global frame only. -/
+
+/-- **Segment lemma for Fc**, spelled out (see `Sim.segment_Fc`). -/
+theorem segment_lemma_Fc (e : Expr) (he : Fc e = true) (isFn : Nat → Bool) (c : Ctx) (hfn : c.funcname = "")
+    (gs gs' : GS) (code : List Instr) (t : Bool) (hc : (compile isFn c e).run gs = .ok ((code, t), gs'))
+    (s : St) (rs : Ref.St) (env : Nat) (pre post : List Instr) (hrel : RelC s rs env)
+    (huser : (fnOf s s.curfunc).user = false) (hcode : (fnOf s s.curfunc).code = pre ++ code ++ post)
+    (hpc : s.pc = (pre.length : Int)) (n : Nat) :
+    match Ref.eval n e env rs with
+    | .ok v rs' => ∃ s', RelC s' rs' env ∧ fnOf s' s'.curfunc = fnOf s s.curfunc
+        ∧ s'.pc = s.pc + (code.length : Int) ∧ s'.data = some v :: s.data
+        ∧ s'.linear = s.linear ∧ s'.addr = s.addr ∧ s'.curfunc = s.curfunc
+        ∧ ∃ k m, k ≤ code.length ∧ ∀ fuel, m ≤ fuel → ∀ st, (runLoop (fuel + k) st).run s = (runLoop fuel st).run s'
+    | .err rs' => ∃ k m, k ≤ code.length ∧ ∀ fuel, m ≤ fuel → ∀ st,
+        ∃ sf, (runLoop (fuel + k) st).run s = (.error .err, sf) ∧ sf.trace = rs'.trace
+    | .timeout => True
+    | .brk _ _ => False
+    | .cont _ _ => False := by
+  have h := segment_Fc e he isFn c hfn gs code t gs' hc s rs env pre post hrel ⟨huser, hcode, hpc⟩ n
+  cases hres : Ref.eval n e env rs with
+  | ok v rs' =>
+    rw [hres] at h
+    obtain ⟨s', ⟨m, k, hk, H⟩, l, rel, -, fr⟩ := h
+    exact ⟨s', rel, l.fn, l.pc, l.data, fr.linear, fr.addr, fr.curfunc, k, m, hk, H⟩
+  | err rs' =>
+    rw [hres] at h
+    obtain ⟨k, hk, m, H⟩ := h
+    exact ⟨k, m, hk, H⟩
+  | timeout => trivial
+  | brk l rs' => rw [hres] at h; exact h
+  | cont l rs' => rw [hres] at h; exact h
+
+/-- **`CompileCorrect` for the fragment Fc**: whenever the reference evaluator reports an outcome
+— a value or an error, with its trace of `trace` calls — for a program whose top-level forms are in
+Fc, the VM model reports the same outcome. -/
+theorem compile_correct_on_Fc : CompileCorrectOn (fun p => FcList p = true) := by
+  intro p hp hwf fuel o ho
+  cases p with
+  | nil => exact compile_correct_on_F0c [] rfl hwf fuel o ho
+  | cons e es =>
+    obtain ⟨N, hN⟩ := runText_Fc VM.initSt Ref.initSt (e :: es) (by simp) hp atRest_initSt relC_initSt fuel
+    refine ⟨N, ?_⟩
+    have h := hN N (Nat.le_refl _)
+    unfold Ref.runProgram at ho
+    cases hres : Ref.evalBegin fuel (e :: es) 0 { Ref.initSt with trace := [] } with
+    | ok v rs' =>
+      rw [hres] at h
+      simp only [hres] at ho
+      obtain ⟨sf, d, hout⟩ := h
+      rw [hout]; exact ho
+    | err rs' =>
+      rw [hres] at h
+      simp only [hres] at ho
+      obtain ⟨sf, d, hout⟩ := h
+      rw [hout]; exact ho
+    | timeout => simp only [hres] at ho; cases ho
+    | brk l rs' => rw [hres] at h; exact h.elim
+    | cont l rs' => rw [hres] at h; exact h.elim
+
+/-- `(def a (+ 1 2)) (let [b (* a a)] (cond (< b 5) 0 (trace (- b (len "xy")))))` -/
+def demoFc : List Expr :=
+  [.def_ "a" (.call (.sym "+") [.int 1, .int 2]),
+   .let_ false [("b", .call (.sym "*") [.sym "a", .sym "a"])]
+     [.cond [(.call (.sym "<") [.sym "b", .int 5], .int 0)]
+        (.call (.sym "trace") [.call (.sym "-") [.sym "b", .call (.sym "len") [.str "xy"]]])]]
+
+example : FcList demoFc = true := by decide
+
+/-- `(def a (+ 1 2)) (trace (* a a))`: value 9, one `trace` call -/
+def demoFcSmall : List Expr :=
+  [.def_ "a" (.call (.sym "+") [.int 1, .int 2]), .call (.sym "trace") [.call (.sym "*") [.sym "a", .sym "a"]]]
+
+example : FcList demoFcSmall = true := by decide
+
+theorem demoFcSmall_ref :
+    refClass (Ref.evalBegin 8 demoFcSmall 0 { Ref.initSt with trace := [] }) = some (some (.int 9#64)) := by
+  simp [demoFcSmall, Ref.evalBegin, Ref.eval, Ref.evalArgs, Ref.applyFn,
+    Ref.define, Ref.setVar, Ref.lookup, Ref.lookupIn, Ref.initSt, Ref.assocSet, Ref.globalNames, coreBuiltins,
+    refClass, List.lookup, prim, isFunction, allInts, intOfLit]
+
+/-- an instance of `compile_correct_on_Fc` with a real outcome (value 9, trace of one call) on
+the reference side; the same text through the harness prints `ok 9 T[9]` -/
+example : ∃ fuel' o, obsOfRef (Ref.runProgram 8 demoFcSmall Ref.initSt).1 = some o
+    ∧ obsOfVM (VM.runText fuel' demoFcSmall VM.initSt).1 = some o := by
+  have h := demoFcSmall_ref
+  cases hres : Ref.evalBegin 8 demoFcSmall 0 { Ref.initSt with trace := [] } with
+  | ok v rs' =>
+    have ho : obsOfRef (Ref.runProgram 8 demoFcSmall Ref.initSt).1 = some (.ok (pr rs'.heap v) rs'.trace) := by
+      unfold Ref.runProgram; simp only [hres]; rfl
+    obtain ⟨f, hf⟩ := compile_correct_on_Fc demoFcSmall (by decide) (by decide) 8 _ ho
+    exact ⟨f, _, ho, hf⟩
+  | err rs' => rw [hres] at h; simp [refClass] at h
+  | timeout => rw [hres] at h; simp [refClass] at h
+  | brk l rs' => rw [hres] at h; simp [refClass] at h
+  | cont l rs' => rw [hres] at h; simp [refClass] at h
+
 /-! ## What is proved of `CompileCorrect`, and what is missing -/
 
-/-- **The part of `CompileCorrect` that is NOT proved**: programs with at least one
-top-level form outside Fv — i.e. using calls (builtin or user), array literals,
-`for`/`break`/`continue`, `fn`/`defn`, a `let` with a repeated name, or an empty
-`begin`/`newScope`. Held by the 3-way
-`eval` correspondence on every run, not by a theorem. -/
-def CompileCorrectOutsideFv : Prop := CompileCorrectOn (fun p => FvList p = false)
+/-- the programs covered by a theorem: every top-level form in Fv, or every top-level form in Fc -/
+def InProvedFragment (p : List Expr) : Prop := FvList p = true ∨ FcList p = true
+
+/-- **The part of `CompileCorrect` that is NOT proved**: programs that are neither in Fv nor in
+Fc — i.e. using calls whose head is not the name of a first-order builtin (user functions,
+`map`/`apply`/`force`, computed heads), array literals, `for`/`break`/`continue`, `fn`/`defn`, a `let`
+with a repeated name, an empty `begin`/`newScope`, or (together with calls) a binder that re-uses
+a builtin name. Held by the 3-way `eval` correspondence on every run, not by a theorem. -/
+def CompileCorrectOutsideProved : Prop := CompileCorrectOn (fun p => ¬ InProvedFragment p)
 
 /-- `compile_correct_partial`: what is proved of the semantic statement.
 
-1. `CompileCorrect` restricted to Fv programs — literals, symbols, `def`, `set`, `begin`,
-   `cond`, `and`, `or`, `newScope`, `letseq`, `let` (distinct names), nested arbitrarily, values
-   *and* errors, with their effects on every scope (execution half included: generator model + VM model vs reference evaluator,
-   all sizes and nestings) — `compile_correct_on_Fv`; for the effect-free sub-fragment F0c with
-   explicit fuel on both sides — `compile_correct_F0c`;
-2. the full `CompileCorrect` follows from its restriction to the programs outside Fv
-   (`CompileCorrectOutsideFv`, the precise unproved remainder);
+1. `CompileCorrect` restricted to the programs of the proved fragments (execution half included:
+   generator model + VM model vs reference evaluator, all sizes and nestings, values *and*
+   errors, traces, effects on every scope):
+   * Fv — literals, symbols, `def`, `set`, `begin`, `cond`, `and`, `or`, `newScope`, `letseq`, `let`
+     (distinct names) — `compile_correct_on_Fv`;
+   * Fc — the same with binder names that are not builtin names, plus calls of first-order
+     builtins (arithmetic, comparisons, `not`, lists, arrays, strings, `trace`), operands evaluated
+     in nested runs — `compile_correct_on_Fc`;
+   * for the effect-free sub-fragment F0c with explicit fuel on both sides — `compile_correct_F0c`;
+2. the full `CompileCorrect` follows from its restriction to the remaining programs
+   (`CompileCorrectOutsideProved`, the precise unproved remainder);
 3. the layout half for `begin`/`cond`/`and`/`or` as before (and `gen_for_layout` for loops).
 
-MISSING (held by the `eval` correspondence only): `CompileCorrectOutsideFv` — calls through
-`callExpr` (builtin calls: re-entrant `Run`; this is what keeps arithmetic out of Fv), F1
+MISSING (held by the `eval` correspondence only): `CompileCorrectOutsideProved` — F1
 (`for`/`break`/`continue`), F2 (closures, user calls, varargs, recursion), F3 (self tail calls,
-`map`/`apply`, lazy parameters). -/
+`map`/`apply`, lazy parameters), array literals. -/
 theorem compile_correct_partial :
-    CompileCorrectOn (fun p => FvList p = true)
-    ∧ (CompileCorrectOutsideFv → CompileCorrect)
+    CompileCorrectOn InProvedFragment
+    ∧ (CompileCorrectOutsideProved → CompileCorrect)
     ∧ (∀ cs : List (List Instr), (∀ c ∈ cs, c ≠ []) → asmBegin cs = (cs.intersperse [Instr.pop]).flatten)
     ∧ (∀ (arms : List (List Instr × List Instr)) (dflt : List Instr) (i : Nat), i < arms.length →
         ∃ pre, asmCond arms dflt = pre ++ asmCond (arms.drop i) dflt)
     ∧ (∀ (isOr : Bool) (cs : List (List Instr)) (i : Nat), i < cs.length →
         ∃ pre, asmSC isOr cs = pre ++ asmSC isOr (cs.drop i)) := by
-  refine ⟨compile_correct_on_Fv, fun hout p hwf => ?_, gen_begin_pops_between,
+  have hin : CompileCorrectOn InProvedFragment := by
+    intro p hp hwf
+    rcases hp with hp | hp
+    · exact compile_correct_on_Fv p hp hwf
+    · exact compile_correct_on_Fc p hp hwf
+  refine ⟨hin, fun hout p hwf => ?_, gen_begin_pops_between,
     fun arms dflt i _ => asmCond_suffix arms dflt i, asmSC_suffix⟩
-  cases h : FvList p with
-  | true => exact compile_correct_on_Fv p h hwf
-  | false => exact hout p h hwf
+  by_cases h : InProvedFragment p
+  · exact hin p h hwf
+  · exact hout p h hwf
 
 end ZygoVerif.C02
